@@ -34,7 +34,10 @@ pub enum Dev { K, T }
 #[derive(Clone, Debug, PartialEq, Eq, Hash)]
 pub struct Step { pub dev: Dev, pub recs: Vec<Rec> }
 #[derive(Clone, Debug, PartialEq, Eq, Hash)]
-pub enum Fault { None, OutFullBefore(usize), OutClosedBefore(usize), ResetAfter(Dev, usize) }
+pub enum Fault { None, OutFullBefore(usize), OutClosedBefore(usize), ResetAfter(Dev, usize),
+  /// from step `before` on the virtual keyboard (a one-page pipe nobody reads any more) has room for exactly `free` more bytes:
+  /// a report that fits is written, the first one that does not fit is refused as a whole (EAGAIN; writes <= PIPE_BUF are atomic)
+  OutNearlyFull { before: usize, free: usize } }
 
 pub struct RealRun {
   pub per_step_out: Vec<Vec<Rec>>,
@@ -43,6 +46,8 @@ pub struct RealRun {
   /// the loop was observed blocked in epoll_wait with nothing to read although a fault had been delivered
   pub quiescent_after_fault: bool,
   pub machinery: Option<String>,
+  /// OutNearlyFull: everything that reached the virtual keyboard from the fault on (read at the very end)
+  pub after_fault_out: Vec<Rec>,
 }
 
 fn rec_bytes(r: &Rec) -> Vec<u8> {
@@ -112,7 +117,8 @@ pub fn run_real(layout: &Layout, steps: &[Step], fault: &Fault) -> RealRun {
   });
   let tid = rx_tid.recv().unwrap();
   let inputs = [k_loop, t_loop];
-  let mut run = RealRun { per_step_out: vec![], returned: None, quiescent_after_fault: false, machinery: None };
+  let mut run = RealRun { per_step_out: vec![], returned: None, quiescent_after_fault: false, machinery: None, after_fault_out: vec![] };
+  let mut out_near: Option<usize> = None; // junk bytes in front of what the loop wrote
   let mut fault_delivered = false; let mut out_closed = false; let mut out_full = false; let mut k_closed = false; let mut t_closed = false;
   let vcs = || thread_state(tid).map(|s| s.1).unwrap_or(0);
   let mut settle = |run: &mut RealRun, at: usize, fault_delivered: bool, min_vcs: u64| -> bool {
@@ -129,6 +135,14 @@ pub fn run_real(layout: &Layout, steps: &[Step], fault: &Fault) -> RealRun {
       // from here on the virtual keyboard is full and stays full: every later write fails with EAGAIN
       Fault::OutFullBefore(j) if *j == i => { let junk = [0xEEu8; 1024]; while write_all(out_w, &junk) {} let one = [0xEEu8; 1]; while write_all(out_w, &one) {} out_full = true; }
       Fault::OutClosedBefore(j) if *j == i => { unsafe { libc::close(out_r); } out_closed = true; }
+      Fault::OutNearlyFull { before, free } if *before == i => {
+        // the pipe is empty here (drained after the previous step): shrink it to one page and fill all but `free` bytes
+        let r = unsafe { libc::fcntl(out_w, libc::F_SETPIPE_SZ, 4096) };
+        if r < 0 { run.machinery = Some(format!("F_SETPIPE_SZ: {}", std::io::Error::last_os_error())); break; }
+        let junk = vec![0xEEu8; 4096 - (*free).min(4096)];
+        if !junk.is_empty() && !write_all(out_w, &junk) { run.machinery = Some("could not pre-fill the virtual keyboard pipe".into()); break; }
+        out_near = Some(junk.len());
+      }
       _ => {}
     }
     let bytes: Vec<u8> = st.recs.iter().flat_map(|r| rec_bytes(r)).collect();
@@ -136,7 +150,7 @@ pub fn run_real(layout: &Layout, steps: &[Step], fault: &Fault) -> RealRun {
     let v0 = vcs();
     if !write_all(fd, &bytes) { run.machinery = Some("feeder write failed".into()); break; }
     alive = settle(&mut run, i, fault_delivered, v0 + 1);
-    let got = if out_closed || out_full { vec![] } else { drain(out_r) };
+    let got = if out_closed || out_full || out_near.is_some() { vec![] } else { drain(out_r) };
     if let Fault::OutFullBefore(j) | Fault::OutClosedBefore(j) = fault { if *j == i { fault_delivered = true; } }
     run.per_step_out.push(decode(&got));
     if run.machinery.is_some() { break; }
@@ -157,8 +171,9 @@ pub fn run_real(layout: &Layout, steps: &[Step], fault: &Fault) -> RealRun {
       Wait::Quiescent => { run.quiescent_after_fault = true; }
       Wait::Machinery(m) => { run.machinery = Some(m); }
     }
-    if !out_closed && !out_full { let tail = drain(out_r); if !tail.is_empty() { run.per_step_out.push(decode(&tail)); } }
+    if !out_closed && !out_full && out_near.is_none() { let tail = drain(out_r); if !tail.is_empty() { run.per_step_out.push(decode(&tail)); } }
   }
+  if let Some(junk) = out_near { let all = drain(out_r); run.after_fault_out = decode(&all[junk.min(all.len())..]); }
   // a loop thread that never returned keeps its descriptors (they are leaked on purpose so that no later scenario can wake it)
   if !alive {
     unsafe { libc::close(k_loop); libc::close(t_loop); libc::close(out_w); if !out_closed { libc::close(out_r); } if !k_closed { libc::close(k_feed); } if !t_closed { libc::close(t_feed); } }
@@ -191,7 +206,32 @@ fn show_steps(steps: &[Step]) -> String { steps.iter().map(|s| format!("{:?}{:?}
 /// first discrepancy of one scenario: (property, clause, detail)
 pub fn judge(sc: &Scenario, run: &RealRun) -> Option<(&'static str, &'static str, String)> {
   let exp = reference(&sc.layout, &sc.steps);
-  let fault_step: Option<usize> = match &sc.fault { Fault::None => None, Fault::OutFullBefore(j) | Fault::OutClosedBefore(j) => Some(*j), Fault::ResetAfter(_, j) => Some(*j + 1) };
+  if let Fault::OutNearlyFull { before, free } = &sc.fault {
+    // before the fault: step by step as usual
+    for i in 0..(*before).min(sc.steps.len()) {
+      match run.per_step_out.get(i) { Some(g) if *g == exp[i] => {}, Some(g) => return Some((if sc.steps.iter().any(|s| s.dev == Dev::T) { "C12" } else { "C10" }, "real-driver-output-differs", format!("step {} of [{}]: written {:?}, the mapper's outputs are {:?}", i, show_steps(&sc.steps), g, exp[i]))), None => {} }
+    }
+    // from the fault on: reports are written while they fit; the first one that does not fit fails as a whole and ends the loop
+    let mut room = *free; let mut want: Vec<Rec> = vec![]; let mut bite: Option<usize> = None;
+    'outer: for i in *before..sc.steps.len() {
+      for batch in exp[i].split_inclusive(|r| *r == SYN) {
+        if batch.len() * 24 <= room { want.extend_from_slice(batch); room -= batch.len() * 24; } else { bite = Some(i); break 'outer; }
+      }
+    }
+    if run.after_fault_out != want {
+      return Some(("C20", "partial-or-extra-write-around-a-refused-report", format!("[{}] with {} bytes of room on the virtual keyboard from step {}: {:?} reached the device, expected exactly the reports that fit, {:?} (a refused report must end the loop with nothing of it written)", show_steps(&sc.steps), free, before, run.after_fault_out, want)));
+    }
+    return match (bite, &run.returned) {
+      (Some(b), Some((Err(_), at))) if *at == b => None,
+      (Some(b), Some((Ok(()), at))) => Some(("C20", "failure-returned-as-ok", format!("[{}] with {} bytes of room from step {}: the loop returned Ok(()) after step {} (the refused report is at step {})", show_steps(&sc.steps), free, before, at, b))),
+      (Some(b), Some((Err(e), at))) => Some(("C20", "stops-at-the-wrong-step", format!("[{}] with {} bytes of room from step {}: the report of step {} does not fit, the loop returned Err({}) after step {}", show_steps(&sc.steps), free, before, b, e, at))),
+      (Some(b), None) => Some(("C20", "does-not-stop-after-failure", format!("[{}] with {} bytes of room from step {}: the report of step {} was refused and the loop went back to waiting", show_steps(&sc.steps), free, before, b))),
+      (None, Some((Err(e), at))) if *at == sc.steps.len() && e.contains("keyboard") => None,
+      (None, Some((r, at))) => Some(("C20", "real-driver-loop-returned-early", format!("[{}] with {} bytes of room from step {} (everything fits): the loop returned {:?} after step {}", show_steps(&sc.steps), free, before, r, at))),
+      (None, None) => Some(("C20", "does-not-stop-after-failure", format!("[{}]: the keyboard failed with ECONNRESET and the loop went back to waiting", show_steps(&sc.steps)))),
+    };
+  }
+  let fault_step: Option<usize> = match &sc.fault { Fault::None | Fault::OutNearlyFull { .. } => None, Fault::OutFullBefore(j) | Fault::OutClosedBefore(j) => Some(*j), Fault::ResetAfter(_, j) => Some(*j + 1) };
   let has_tablet = sc.steps.iter().any(|s| s.dev == Dev::T);
   let prop_plain: &'static str = if has_tablet { "C12" } else { "C10" };
   // a write fault bites at the first step from `fault_step` on that has something to write; a reset bites at once
@@ -206,6 +246,9 @@ pub fn judge(sc: &Scenario, run: &RealRun) -> Option<(&'static str, &'static str
     if before_bite {
       match got {
         Some(g) if *g == exp[i] => {}
+        // the same key records in the same order, cut into reports differently: the events are the mapper's (C10/C12 hold),
+        // the report structure is not "one record per event followed by exactly one SYN_REPORT" per batch - C18's subject
+        Some(g) if g.iter().filter(|r| **r != SYN).eq(exp[i].iter().filter(|r| **r != SYN)) => return Some(("C18", "real-driver-batch-not-one-report", format!("step {} of [{}]: written {:?}; each batch of the mapper must be one report: {:?}", i, show_steps(&sc.steps), g, exp[i]))),
         Some(g) => return Some((prop_plain, if has_tablet { "real-driver-tablet-scenario-output-differs" } else { "real-driver-output-differs" }, format!("step {} of [{}]: written {:?}, the mapper's outputs are {:?}", i, show_steps(&sc.steps), g, exp[i]))),
         None => { if let Some((r, at)) = &run.returned { return Some((prop_plain, "real-driver-loop-returned-early", format!("the loop returned {:?} after step {} of [{}] although nothing had failed", r, at, show_steps(&sc.steps)))); } }
       }
@@ -239,6 +282,9 @@ pub fn judge(sc: &Scenario, run: &RealRun) -> Option<(&'static str, &'static str
 fn m(from: &[KeyCode], to: &[KeyCode]) -> crate::keys::Mapping { crate::keys::Mapping { from: from.to_vec(), to: to.to_vec(), repeat: crate::keys::Repeat::Normal, absorbing: vec![] } }
 fn l_plain() -> Layout { use KeyCode::*; Layout { mappings: vec![m(&[A], &[B])] } }
 fn l_chord() -> Layout { use KeyCode::*; Layout { mappings: vec![m(&[CAPSLOCK], &[]), m(&[CAPSLOCK, J], &[LEFT]), m(&[A], &[LEFTSHIFT, B])] } }
+
+/// one key producing ten keys at once (a report of 10 + 1 records), next to a plain key
+fn l_big() -> Layout { use KeyCode::*; Layout { mappings: vec![m(&[A], &[K1, K2, K3, K4, K5, K6, K7, K8, K9, K0]), m(&[B], &[LEFTSHIFT, LEFTCTRL, LEFTALT, X, Y, Z, U, V, W])] } }
 
 fn kp(k: KeyCode, down: bool) -> Rec { (EV_KEY, (k as i32 as u16), if down { 1 } else { 0 }) }
 
@@ -306,7 +352,29 @@ pub fn scenarios(id: &str, tier: Tier) -> Vec<Scenario> {
         v.push(Scenario { layout: l_chord(), steps, fault: Fault::None });
       } } } }
     }
+    "C18" => {
+      // reports of many records through the real driver's send path: a key that produces ten keys, a release-all of 9..12 keys
+      // at a tablet-mode change, each in one write and cut into one write per packet
+      let big: Vec<Vec<Step>> = vec![
+        vec![Step { dev: Dev::K, recs: vec![kp(A, true), SYN] }, Step { dev: Dev::K, recs: vec![kp(A, false), SYN] }],
+        vec![Step { dev: Dev::K, recs: vec![kp(B, true), SYN, kp(A, true), SYN] }, Step { dev: Dev::K, recs: vec![kp(A, false), SYN, kp(B, false), SYN] }],
+        vec![Step { dev: Dev::K, recs: vec![kp(A, true), SYN] }, Step { dev: Dev::T, recs: t_on[0].clone() }, Step { dev: Dev::T, recs: t_off[0].clone() }, Step { dev: Dev::K, recs: vec![kp(B, true), SYN] }, Step { dev: Dev::T, recs: t_on[1].clone() }],
+      ];
+      for steps in &big { v.push(Scenario { layout: l_big(), steps: steps.clone(), fault: Fault::None }); }
+      let keys = [Q, W, E, R, T, Y, U, I, O, P, F1, F2];
+      for n in [7usize, 8, 9, 10, 12] {
+        let press: Vec<Rec> = keys[..n].iter().flat_map(|k| vec![kp(*k, true), SYN]).collect();
+        v.push(Scenario { layout: l_plain(), steps: vec![Step { dev: Dev::K, recs: press.clone() }, Step { dev: Dev::T, recs: t_on[0].clone() }, Step { dev: Dev::T, recs: t_off[0].clone() }], fault: Fault::None });
+        let mut steps: Vec<Step> = keys[..n].iter().map(|k| Step { dev: Dev::K, recs: vec![kp(*k, true), SYN] }).collect();
+        steps.push(Step { dev: Dev::T, recs: t_on[2].clone() });
+        v.push(Scenario { layout: l_chord(), steps, fault: Fault::None });
+      }
+    }
     "C20" => {
+      // a virtual keyboard with room for only part of a large report (a refused report must fail as a whole)
+      let big: Vec<Step> = vec![Step { dev: Dev::K, recs: vec![kp(C, true), SYN] }, Step { dev: Dev::K, recs: vec![kp(A, true), SYN] }, Step { dev: Dev::K, recs: vec![kp(A, false), SYN] }, Step { dev: Dev::K, recs: vec![kp(C, false), SYN, kp(B, true), SYN] }];
+      let rooms: Vec<usize> = if q { vec![0, 24, 48, 72, 96, 144, 191, 192, 216, 263, 264, 288, 312, 600] } else { (0..=30).map(|x| x * 24).chain([47, 100, 191, 263, 4096]).collect() };
+      for before in 0..big.len() { for free in &rooms { v.push(Scenario { layout: l_big(), steps: big.clone(), fault: Fault::OutNearlyFull { before, free: *free } }); } }
       let base: Vec<Vec<Step>> = vec![
         vec![Step { dev: Dev::K, recs: vec![kp(A, true), SYN] }, Step { dev: Dev::K, recs: vec![kp(C, true), SYN] }, Step { dev: Dev::K, recs: vec![kp(A, false), SYN, kp(C, false), SYN] }],
         vec![Step { dev: Dev::K, recs: vec![kp(A, true), SYN] }, Step { dev: Dev::T, recs: t_on[0].clone() }, Step { dev: Dev::K, recs: vec![kp(A, false), SYN] }, Step { dev: Dev::T, recs: t_off[0].clone() }, Step { dev: Dev::K, recs: vec![kp(C, true), SYN] }],
@@ -345,13 +413,13 @@ pub fn run_family(ctx: &Ctx, id: &str) -> RAgg {
     if verdict.is_some() {
       // a failure must reproduce: the same scenario once more, identical observations required
       let again = run_real(&scs[i].layout, &scs[i].steps, &scs[i].fault);
-      if again.per_step_out != run.per_step_out || again.returned.as_ref().map(|r| (r.0.is_ok(), r.1)) != run.returned.as_ref().map(|r| (r.0.is_ok(), r.1)) { run.machinery = Some(format!("scenario [{}] {:?} is not deterministic: first {:?} / {:?}, then {:?} / {:?}", show_steps(&scs[i].steps), scs[i].fault, run.per_step_out, run.returned, again.per_step_out, again.returned)); verdict = None; }
+      if again.per_step_out != run.per_step_out || again.after_fault_out != run.after_fault_out || again.returned.as_ref().map(|r| (r.0.is_ok(), r.1)) != run.returned.as_ref().map(|r| (r.0.is_ok(), r.1)) { run.machinery = Some(format!("scenario [{}] {:?} is not deterministic: first {:?} / {:?}, then {:?} / {:?}", show_steps(&scs[i].steps), scs[i].fault, run.per_step_out, run.returned, again.per_step_out, again.returned)); verdict = None; }
     }
     (run, verdict)
   });
   for (i, (run, verdict)) in results.into_iter().enumerate() {
     agg.runs += 1; agg.steps += scs[i].steps.len() as u64;
-    agg.distinct_outputs.insert(h(&(run.per_step_out.clone(), run.returned.as_ref().map(|r| (r.0.is_ok(), r.1)))));
+    agg.distinct_outputs.insert(h(&(run.per_step_out.clone(), run.after_fault_out.clone(), run.returned.as_ref().map(|r| (r.0.is_ok(), r.1)))));
     if scs[i].fault != Fault::None && run.returned.as_ref().map(|r| r.1 < scs[i].steps.len()).unwrap_or(false) { agg.faults_bitten += 1; }
     if let Some(m) = run.machinery { agg.machinery = Some(m); continue; }
     if let Some((prop, clause, detail)) = verdict {
@@ -368,13 +436,16 @@ pub fn replay_artefact(v: &Value) -> i32 {
   let steps: Vec<Step> = v["steps"].as_array().unwrap().iter().map(|s| Step { dev: if s["dev"] == "K" { Dev::K } else { Dev::T }, recs: s["records"].as_array().unwrap().iter().map(|r| (r[0].as_u64().unwrap() as u16, r[1].as_u64().unwrap() as u16, r[2].as_i64().unwrap() as i32)).collect() }).collect();
   let f = v["fault"].as_str().unwrap_or("None");
   let num = |s: &str| -> usize { s.chars().filter(|c| c.is_ascii_digit()).collect::<String>().parse().unwrap_or(0) };
-  let fault = if f.starts_with("OutFullBefore") { Fault::OutFullBefore(num(f)) } else if f.starts_with("OutClosedBefore") { Fault::OutClosedBefore(num(f)) } else if f.starts_with("ResetAfter(K") { Fault::ResetAfter(Dev::K, num(f)) } else if f.starts_with("ResetAfter(T") { Fault::ResetAfter(Dev::T, num(f)) } else { Fault::None };
+  let fault = if f.starts_with("OutFullBefore") { Fault::OutFullBefore(num(f)) } else if f.starts_with("OutClosedBefore") { Fault::OutClosedBefore(num(f)) } else if f.starts_with("ResetAfter(K") { Fault::ResetAfter(Dev::K, num(f)) } else if f.starts_with("ResetAfter(T") { Fault::ResetAfter(Dev::T, num(f)) }
+    else if f.starts_with("OutNearlyFull") { let ns: Vec<usize> = f.split(|c: char| !c.is_ascii_digit()).filter(|t| !t.is_empty()).map(|t| t.parse().unwrap_or(0)).collect(); Fault::OutNearlyFull { before: ns.get(0).cloned().unwrap_or(0), free: ns.get(1).cloned().unwrap_or(0) } }
+    else { Fault::None };
   let sc = Scenario { layout, steps, fault };
   let run = run_real(&sc.layout, &sc.steps, &sc.fault);
   println!("property {} clause {}", v["property"], v["clause"]);
   println!("steps: {}", show_steps(&sc.steps)); println!("fault: {:?}", sc.fault);
   let exp = reference(&sc.layout, &sc.steps);
   for (i, o) in run.per_step_out.iter().enumerate() { println!("  after step {}: written {:?}   (mapper's outputs: {:?})", i, o, exp.get(i)); }
+  if !run.after_fault_out.is_empty() || matches!(sc.fault, Fault::OutNearlyFull { .. }) { println!("  reached the device from the fault on: {:?}", run.after_fault_out); }
   println!("loop returned: {:?}", run.returned);
   match judge(&sc, &run) { Some((p, c, d)) => println!("first discrepancy: {} / {}: {}", p, c, d), None => println!("no discrepancy") }
   0
